@@ -161,3 +161,21 @@ def write_evidence(prop, tier, seed, level, coverage, assumptions, wall_s, viola
 
 def canon(x):
   return json.dumps(x, sort_keys=True, separators=(',', ':'), default=str)
+
+
+def age_tag_pools(k):
+  """Fast-forward the tag counter of every live mux TagPool to k (the state of a long-lived connection on which
+  the tags up to k are still reserved), without executing that history.  Returns the number of pools aged;
+  0 if the pool class or its counter is not what this helper knows (the scenario then simply runs un-aged)."""
+  import gc
+  try:
+    from scales.mux.sink import TagPool
+  except Exception:
+    return 0
+  n = 0
+  for o in gc.get_objects():
+    if type(o) is TagPool and isinstance(getattr(o, '_next', None), int) and isinstance(getattr(o, '_set', None), set):
+      if o._next < k:
+        o._next = k
+        n += 1
+  return n
